@@ -1,7 +1,7 @@
 (* StreamProofs.v — every front end equals the specification under an explicit hypothesis;
    fault isolation (a call that yields no result does not disturb the others). *)
 From IoosQc Require Import Base Stream.
-From Coq Require Import String.
+From Coq Require Import String Permutation.
 Local Notation length := List.length.
 
 Section Proofs.
@@ -156,13 +156,7 @@ Section Proofs.
     destruct (w_start c) as [s|], (w_end c) as [e|]; rewrite ?Z.leb_le, ?Z.ltb_lt; tauto.
   Qed.
 
-  (* ---------------------------------------------------------------- fault isolation (C18) *)
-
-  Definition healthy_calls tbl (c : context) : list call :=
-    filter (fun cl => negb (no_result TestId Kw test tbl (window_mask TestId Kw tbl c) cl)) (cx_calls c).
-
-  Definition healthy_cfg tbl (cfg : list context) : list context :=
-    map (fun c => {| w_start := w_start c; w_end := w_end c; cx_calls := healthy_calls tbl c |}) cfg.
+  (* ---------------------------------------------------------------- grouping by context *)
 
   Lemma window_mask_same tbl (c c' : context) :
     w_start c = w_start c' -> w_end c = w_end c' ->
@@ -170,6 +164,70 @@ Section Proofs.
   Proof.
     intros H1 H2. unfold window_mask, in_window. rewrite H1, H2. reflexivity.
   Qed.
+
+
+  Definition one_ctx tbl (c : context) : list sres :=
+    flat_map (run_call tbl (window_mask TestId Kw tbl c)) (cx_calls c).
+
+  Definition results_of (cfg : list context) tbl : list sres := flat_map (one_ctx tbl) cfg.
+
+  Lemma results_of_cons c l tbl : results_of (c :: l) tbl = one_ctx tbl c ++ results_of l tbl.
+  Proof. reflexivity. Qed.
+
+  Lemma win_eqb_same (a b : context) :
+    win_eqb TestId Kw a b = true -> w_start a = w_start b /\ w_end a = w_end b.
+  Proof.
+    unfold win_eqb, obound_eqb. rewrite andb_true_iff. intros [H1 H2]. split.
+    - destruct (w_start a), (w_start b); try discriminate; [apply Z.eqb_eq in H1; subst|]; reflexivity.
+    - destruct (w_end a), (w_end b); try discriminate; [apply Z.eqb_eq in H2; subst|]; reflexivity.
+  Qed.
+
+  Lemma one_ctx_merged tbl g c :
+    w_start g = w_start c -> w_end g = w_end c ->
+    one_ctx tbl {| w_start := w_start g; w_end := w_end g; cx_calls := cx_calls g ++ cx_calls c |}
+    = one_ctx tbl g ++ one_ctx tbl c.
+  Proof.
+    intros E1 E2. unfold one_ctx. simpl cx_calls. rewrite flat_map_app.
+    rewrite (window_mask_same tbl {| w_start := w_start g; w_end := w_end g; cx_calls := cx_calls g ++ cx_calls c |} g)
+      by reflexivity.
+    rewrite (window_mask_same tbl c g) by (symmetry; assumption). reflexivity.
+  Qed.
+
+  Lemma add_group_perm tbl c : forall gs,
+    Permutation (results_of (add_group TestId Kw c gs) tbl) (results_of gs tbl ++ one_ctx tbl c).
+  Proof.
+    induction gs as [|g r IH]; simpl add_group.
+    - rewrite results_of_cons. simpl. rewrite app_nil_r. apply Permutation_refl.
+    - destruct (win_eqb TestId Kw g c) eqn:E.
+      + apply win_eqb_same in E. destruct E as [E1 E2].
+        rewrite !results_of_cons, one_ctx_merged by assumption.
+        rewrite <- !app_assoc. apply Permutation_app_head. apply Permutation_app_comm.
+      + rewrite !results_of_cons, <- app_assoc. apply Permutation_app_head. exact IH.
+  Qed.
+
+  (* grouping the calls by context only reorders the results: every (context, call) is run once, on
+     its own window — in particular a context listed twice, adjacent or not, loses nothing *)
+  Theorem group_contexts_perm cfg tbl :
+    Permutation (results_of (group_contexts TestId Kw cfg) tbl) (results_of cfg tbl).
+  Proof.
+    unfold group_contexts.
+    assert (G : forall gs, Permutation (results_of (fold_left (fun gs c => add_group TestId Kw c gs) cfg gs) tbl)
+                                       (results_of gs tbl ++ results_of cfg tbl)).
+    { induction cfg as [|c cfg IH]; intros gs; simpl fold_left.
+      - unfold results_of at 3. simpl. rewrite app_nil_r. apply Permutation_refl.
+      - eapply Permutation_trans; [apply IH|].
+        eapply Permutation_trans; [apply Permutation_app_tail, add_group_perm|].
+        rewrite results_of_cons, <- app_assoc. apply Permutation_refl. }
+    apply (G []).
+  Qed.
+
+  (* ---------------------------------------------------------------- fault isolation (C18) *)
+
+  Definition healthy_calls tbl (c : context) : list call :=
+    filter (fun cl => negb (no_result TestId Kw test tbl (window_mask TestId Kw tbl c) cl)) (cx_calls c).
+
+  Definition healthy_cfg tbl (cfg : list context) : list context :=
+    map (fun c => {| w_start := w_start c; w_end := w_end c; cx_calls := healthy_calls tbl c |}) cfg.
 
   Lemma filter_flat_map {A B} (p : B -> bool) (f : A -> list B) l :
     filter p (flat_map f l) = flat_map (fun x => filter p (f x)) l.
